@@ -824,4 +824,203 @@ example : observe (Impl 30 blockDemoProg) = .inl (some 42) := by decide
 example : observe (Spec 30 blockDemoProg) = .inl (some 42) := by decide
 example : depth1Only blockDemoProg.lits = true := by decide
 
+
+/-! ## Recursion: every call is a new activation, every level keeps its own bindings
+
+"However the function is eventually invoked" includes: by ITSELF.  A function that calls itself
+(in tail position — `return f(…)`, the result handed on as it is — or in the middle of an
+expression, directly or through another name bound to the same function object, from the
+script or under a `vm.Call` from Go) and creates a closure over one of its parameters or locals
+at every level must give every level's closure the bindings of THAT level.  In the code as it
+is the `Call` instruction has one way out (`callObject` → `callFunction` → a new frame
+activation; ties `armCall_tie`, `callObjectFunction_tie`), so a self call is a call like any
+other.  The closure language has the conditional return `if c { return e }` (`Tm.retif`), so
+terminating recursion is expressible and `C02_partial_depth1` covers it. -/
+
+/-- **A call runs in a new activation — whoever calls whom, whatever follows the call.**  For
+    every state, closure and argument list (of the right length, within the call budget) the
+    body runs in `St.enter`: activation number `s.acts.length` — one that did not exist before —
+    with locals initialised from THIS call's arguments; afterwards the caller's stack is
+    restored.  Nothing in it looks at whether the callee is the function that is running or at
+    the position of the call (a self call in tail position is this case). -/
+theorem call_runs_in_new_activation (m : Mode) (lits : List Lit) (n i : Nat) (cells : List (Nat × Nat))
+    (definer : Nat) (args : List Val) (l : Lit) (s : St)
+    (hl : lits[i]? = some l) (ha : args.length = l.nparams) (hc : s.calls ≠ 0) :
+    callVal m lits (n + 1) (.clo i cells definer) args s =
+      match execBody m lits n l.body (s.enter l (.clo i cells definer) args definer cells) with
+      | (r, s') => (r, { s' with stack := s.stack }) := by
+  have h1 : (args.length != l.nparams) = false := by simp [ha]
+  have h2 : (s.calls == 0) = false := by simp [hc]
+  simp only [callVal, hl, bind, getSt, setSt, modSt, catchE, rethrow, pure, St.enter, h1, h2,
+    Bool.false_eq_true, if_false]
+  generalize execBody m lits n l.body _ = r
+  obtain ⟨r, s'⟩ := r
+  cases r <;> rfl
+
+
+/-- **`return e` / `if c { return e }` in a function body.**  The conditional return ends the
+    function with the value of `e` when `c` is truthy and goes on with the following statements
+    otherwise (for every mode, budget, state) -/
+theorem conditional_return (m : Mode) (lits : List Lit) (n : Nat) (c e : RTm) (rest : List RTm) (s : St) :
+    execBody m lits (n + 1) (.retif c e :: rest) s =
+      match eval m lits n c s with
+      | (.ok cv, s') => if cv.truthy then eval m lits n e s' else execBody m lits n rest s'
+      | (.error err, s') => (.error err, s') := by
+  simp only [execBody, bind]
+  cases eval m lits n c s with
+  | mk r s' =>
+    cases r with
+    | error err => rfl
+    | ok cv => cases h : cv.truthy <;> simp [h]
+
+/-- a function literal that captures only variables of the function executing it gets cells
+    of THAT activation (the one on top of the stack), in both modes -/
+theorem depth1_cells_in_running_activation (m : Mode) (s : St) (cur : Nat) (rest : List Nat)
+    (hs : s.stack = cur :: rest) :
+    ∀ (frees : List (Nat × Nat)) (cs : List (Nat × Nat)), (frees.all fun p => p.2 == 0) = true →
+      makeCells m s frees = .ok cs → ∀ c, c ∈ cs → c.1 = cur := by
+  intro frees
+  induction frees with
+  | nil =>
+    intro cs _ h c hc
+    simp only [makeCells] at h
+    cases h
+    simp at hc
+  | cons p rest' ih =>
+    obtain ⟨slot, d⟩ := p
+    intro cs hd h c hc
+    simp only [List.all_cons, Bool.and_eq_true, beq_iff_eq] at hd
+    obtain ⟨hd0, hdr⟩ := hd
+    have hd0' : d = 0 := hd0
+    subst hd0'
+    have hcap : captureAct m s.parentOf s.stack 0 = some cur := by
+      rw [hs]; cases m <;> rfl
+    simp only [makeCells, hcap] at h
+    split at h
+    · cases h
+    · split at h
+      · split at h
+        · rename_i cs' hcs'
+          cases h
+          rcases List.mem_cons.1 hc with h0 | h1
+          · subst h0; rfl
+          · exact ih cs' hdr hcs' c h1
+        · cases h
+      · cases h
+
+
+/-- **Every level of a recursion has its own bindings.**  Let a call be made in state `s` (its
+    activation gets the number `s.acts.length`, `call_runs_in_new_activation`) and let the callee,
+    at any later moment `s2` at which it is the running function, execute a function literal over
+    its own parameters/locals.  Every cell `c` of the new closure is different from every cell
+    `cOld` of an activation that existed when the call was made — in particular from the cells
+    of the closures the SAME function made one level up — and writes through either are not seen
+    through the other (for every state `st` they are applied to and every value). -/
+theorem recursive_levels_have_own_bindings (m : Mode) (s s2 : St) (rest : List Nat)
+    (hs2 : s2.stack = s.acts.length :: rest)
+    (frees : List (Nat × Nat)) (hd : (frees.all fun p => p.2 == 0) = true)
+    (cs : List (Nat × Nat)) (hcs : makeCells m s2 frees = .ok cs)
+    (c cOld : Nat × Nat) (hc : c ∈ cs) (hold : cOld.1 < s.acts.length) :
+    c ≠ cOld ∧
+    ∀ (st : St) (v : Val),
+      readCell (writeCell st c v) cOld = readCell st cOld ∧
+      readCell (writeCell st cOld v) c = readCell st c := by
+  have h1 := depth1_cells_in_running_activation m s2 _ rest hs2 frees cs hd hcs c hc
+  have hne : c ≠ cOld := by
+    intro h; rw [h] at h1; omega
+  exact ⟨hne, fun st v => ⟨cell_write_other st c cOld v hne, cell_write_other st cOld c v (fun h => hne h.symm)⟩⟩
+
+
+/-- **On the frame machine: a call — a self call included, there is one call operation —
+    starts an activation no existing cell belongs to**, in the next frame slot, with
+    `capturedLocals` reset.  With `cells_fresh_after_abort` (cells of different activations never
+    share storage) every closure the callee makes is separate from every closure made before. -/
+theorem call_starts_new_activation (ops : List FOp) (s : FM) (hr : FM.run FM.init ops = some s)
+    (wide : Bool) :
+    ∃ s1, s.step (.call wide) = some s1 ∧ s1.fp = s.fp + 1 ∧
+      (s1.frames s1.fp).act = s.nacts ∧ (s1.frames s1.fp).captured = none ∧
+      s1.cells = s.cells ∧ ∀ c, c ∈ s1.cells → c.act ≠ (s1.frames s1.fp).act := by
+  have hinv := FM.reachable_inv ops s hr
+  refine ⟨_, rfl, rfl, ?_, ?_, rfl, ?_⟩
+  · simp only [upd_same]
+  · simp only [upd_same]
+  · intro c hc
+    have := (hinv.cell_owner c hc).2.2
+    simp only [upd_same]
+    omega
+
+/-- **Every level of a recursion keeps its own binding.**  For EVERY recursion depth and every
+    choice of values and frame sizes: `n` nested calls (a function calling itself, or any other
+    chain), each level storing its value `vᵢ` in its local 0 and making a closure over it; all
+    levels return; then the closures are read in the order they were made.  The frame machine
+    (frame slots re-used level by level on the way back, inline storage copied to the heap on
+    capture, `capturedLocals`) shows `v₀, v₁, …` — each closure reads the value of the level
+    that made it, not the last level's. -/
+theorem recursion_levels_keep_their_values (vs : List (Int × Bool)) :
+    (FM.run FM.init (recChain vs)).map (·.out) = some (vs.map (·.1)).reverse := by
+  rw [frames_refine_variables]
+  obtain ⟨t1, hrun1, hfp, hout, hn, hlen, _, _, hlv⟩ := VarM.descent vs VarM.init
+  have hrun2 := VarM.returns vs.length t1 (by omega)
+  let t2 : VarM := { t1 with fp := t1.fp - vs.length }
+  have hreads := VarM.reads (vs.map (·.1)) 0 t2 (by
+    intro i w hi
+    simp only [List.getElem?_map, Option.map_eq_some_iff] at hi
+    obtain ⟨p, hp, hw⟩ := hi
+    obtain ⟨c, hc, hv, _⟩ := hlv i p hp
+    refine ⟨c, ?_, by rw [← hw]; exact hv⟩
+    simpa [VarM.init, t2] using hc)
+  obtain ⟨t3, hrun3, hout3⟩ := hreads
+  simp only [recChain, VarM.run_append, hrun1, Option.bind_some, hrun2]
+  rw [List.range_eq_range']
+  simp only [List.length_map] at hrun3
+  show Option.map (·.out) (VarM.run t2 _) = _
+  rw [hrun3]
+  simp only [Option.map_some, hout3, t2, hout, VarM.init, List.append_nil]
+
+
+/-- non-vacuity: three levels, the closures read 1, 2, 3 (most recent load first) … -/
+example : (FM.run FM.init (recChain [(1, false), (2, true), (3, false)])).map (·.out) = some [3, 2, 1] := by decide
+
+/-- … what the theorems exclude: a machine that runs a call made from inside a function (as a
+    "frame re-using" treatment of the self call in tail position would) IN THE FRAME THAT IS
+    ALREADY THERE — a new activation in the same slot with `locals`/`capturedLocals` kept: the
+    three closures share one variable and all read the last level's 3 -/
+def FM.stepRestart (s : FM) : FOp → Option FM
+  | .call wide =>
+    if s.fp = 0 then s.step (.call wide)
+    else some { s with frames := upd s.frames s.fp { s.frames s.fp with act := s.nacts }, nacts := s.nacts + 1 }
+  | op => s.step op
+
+example : (FM.runWith FM.stepRestart FM.init
+    (recDescent [(1, false), (2, false), (3, false)] ++ [.ret, .loadFree 0, .loadFree 1, .loadFree 2])).map (·.out)
+    = some [3, 3, 3] := by decide
+
+/-- the scenario end to end in the closure language:
+    `func rec(n, acc) { x := n + 10; g := func(q) { x += q; return x + n };
+                        if n { return rec(n + -1, acc + [g]) }; return acc + [g] }
+     r := rec(2, []); r[0](1) + r[0](1) + r[1](1)`
+    as `resolveProg` resolves it (`rec` is named: slot 2 is the function itself).  Level `n = 2`
+    has `x = 12`: its closure returns 15, then 16; level `n = 1` has `x = 11`: 13.  (With one
+    shared set of bindings — the last level's `n = 0`, `x = 10` — the sum would be 36.) -/
+def recDemoProg : Prog :=
+  { lits := [
+      { nparams := 1, named := false, nlocals := 1, frees := [(3, 0), (3, 0), (0, 0)],
+        body := [.store (.free 0) (.add (.load (.free 0)) (.load (.loc 0))),
+                 .ret (.add (.load (.free 1)) (.load (.free 2)))] },
+      { nparams := 2, named := true, nlocals := 5, frees := [],
+        body := [.store (.loc 3) (.add (.load (.loc 0)) (.int 10)),
+                 .store (.loc 4) (.mkfn 0),
+                 .retif (.load (.loc 0))
+                   (.call (.load (.loc 2)) [.add (.load (.loc 0)) (.int (-1)), .add (.load (.loc 1)) (.list [.load (.loc 4)])]),
+                 .ret (.add (.load (.loc 1)) (.list [.load (.loc 4)]))] }],
+    main := [.store (.glob 0) (.mkfn 1),
+             .store (.glob 1) (.call (.load (.glob 0)) [.int 2, .list []]),
+             .add (.add (.call (.idx (.load (.glob 1)) 0) [.int 1]) (.call (.idx (.load (.glob 1)) 0) [.int 1]))
+                  (.call (.idx (.load (.glob 1)) 1) [.int 1])],
+    nglobals := 2, mainLocals := 0 }
+
+example : depth1Only recDemoProg.lits = true := by decide
+example : observe (Impl 60 recDemoProg) = .inl (some 44) := by decide +kernel
+example : observe (Spec 60 recDemoProg) = .inl (some 44) := by decide +kernel
+
 end Risor.C02
